@@ -313,6 +313,20 @@ class Sym:
                         if isinstance(b, ast.AugAssign) and isinstance(b.target, ast.Name) and isinstance(b.op, ast.Add):
                             effects.append(("add", b.target.id, self.expr(b.value, e3, depth), tuple(conds)))
                             continue
+                        if isinstance(b, ast.For) and not b.orelse and isinstance(b.target, ast.Name) and len(b.body) == 1 \
+                                and isinstance(b.body[0], ast.Expr) and isinstance(b.body[0].value, ast.Call):
+                            # inner loop that appends one item per element:  for y in ys: X.append(e)  ==  X.extend([e for y in ys])
+                            c2 = b.body[0].value
+                            if isinstance(c2.func, ast.Attribute) and isinstance(c2.func.value, ast.Name) and c2.func.value.id in env \
+                                    and c2.func.attr == "append" and len(c2.args) == 1:
+                                it2 = self.expr(b.iter, e3, depth)
+                                bv2 = ("bv", self._fresh())
+                                e4 = dict(e3)
+                                e4[b.target.id] = bv2
+                                effects.append(("append", c2.func.value.id, ("splice", mkcomp("comp", self.expr(c2.args[0], e4, depth), bv2, it2, ())),
+                                                tuple(conds)))
+                                continue
+                            return False
                         if isinstance(b, ast.Assign) and len(b.targets) == 1 and isinstance(b.targets[0], ast.Subscript) \
                                 and isinstance(b.targets[0].value, ast.Name) and b.targets[0].value.id in env \
                                 and env[b.targets[0].value.id] in EMPTY_DICTS and not isinstance(b.targets[0].slice, ast.Slice):
